@@ -753,6 +753,12 @@ func (x *Exec) freshLike(v Value, hint string) Value {
 	case *StructV:
 		n := &StructV{Names: t.Names, F: make([]Value, len(t.F))}
 		for i, f := range t.F {
+			if t.Names[i] == "$off" {
+				if ft, ok := f.(Term); ok {
+					n.F[i] = zeroOf(ft.T) // unknown slice: offset normalised to 0 (see baseLeaf)
+					continue
+				}
+			}
 			n.F[i] = x.freshLike(f, hint+"."+t.Names[i])
 		}
 		return n
